@@ -457,9 +457,11 @@ theorem inRangesF_eq (rs : List (Nat × Nat)) (c : Nat) : inRangesF rs c = inRan
 
 /-- code point ranges that are looked at one by one; everything else is shown to be untouched in general -/
 def hot : List (Nat × Nat) :=
-  [(0, 0x5ff), (0x1000, 0x10ff), (0x1300, 0x13ff), (0x1c00, 0x1cff), (0x1e00, 0x1fff), (0x2100, 0x21ff), (0x2400, 0x24ff),
-   (0x2c00, 0x2cff), (0xa600, 0xa7ff), (0xab00, 0xabff), (0xfb00, 0xfbff), (0xff00, 0xffff), (0x10400, 0x105ff),
-   (0x10c00, 0x10cff), (0x11800, 0x118ff), (0x16e00, 0x16eff), (0x1d400, 0x1d7ff), (0x1e900, 0x1e9ff), (0x1f100, 0x1f1ff)]
+  [(0x0, 0x587), (0x10a0, 0x10cd), (0x13a0, 0x13fd), (0x1c80, 0x1cbf), (0x1e00, 0x1ffc), (0x2102, 0x2145), (0x2160, 0x216f),
+   (0x2183, 0x2183), (0x24b6, 0x24cf), (0x2c00, 0x2c2f), (0x2c60, 0x2cf2), (0xa640, 0xa66c), (0xa680, 0xa69a),
+   (0xa722, 0xa7d9), (0xa7f5, 0xa7f6), (0xab70, 0xabbf), (0xfb00, 0xfb17), (0xff21, 0xff3a), (0x10400, 0x10427),
+   (0x104b0, 0x104d3), (0x10570, 0x10595), (0x10c80, 0x10cb2), (0x118a0, 0x118bf), (0x16e40, 0x16e5f), (0x1d400, 0x1d7ca),
+   (0x1e900, 0x1e921), (0x1f130, 0x1f189)]
 
 noncomputable def okF (c : Nat) : Bool :=
   (bif inWin c || Nat.blt c 128 then (iswfc c == 0) == ((towfcCoreF c).2 == [c])
@@ -530,7 +532,7 @@ theorem towlowerC_cold (c : Nat) (h : inRanges hot c = false) : towlowerC c = c 
     have : inRanges hot c = true := (inRanges_iff _ _).mpr ⟨r, hr, hh⟩
     rw [h] at this
     exact absurd this (by decide)
-  have h10 := hnot (0x1000, 0x10ff) (by simp [hot])
+  have h10 := hnot (0x10a0, 0x10cd) (by simp [hot])
   simp only at h10
   unfold towlowerC
   split
@@ -592,4 +594,68 @@ theorem towfcSingle_cold (c : Nat) (h : inRanges hot c = false) : (towfcSingle c
     · simp only [if_neg h1, if_pos h2, if_pos (show c < 0x1e9b by omega)]
     · simp only [if_neg h1, if_neg h2]
 
-#exit
+/-! ### the hot ranges, code point by code point -/
+
+set_option maxRecDepth 100000 in
+theorem hot_ok : (hot.all fun r => allDown okF r.1 (r.2 + 1)) = true := by decide +kernel
+
+/-- `iswfc` announces 0 exactly when `towfc_s` hands the character back unchanged — outside the two exception sets, for every
+cell value (no bound needed) -/
+theorem fold_announce_all (c : Nat) (hz : inRanges announcesZeroButFolds c = false)
+    (ho : inRanges announcesOneButUnchanged c = false) : iswfc c = 0 ↔ (towfcCore c).2 = [c] := by
+  cases hh : inRanges hot c with
+  | true =>
+    obtain ⟨r, hr, h1, h2⟩ := (inRanges_iff _ _).mp hh
+    have := List.all_eq_true.mp hot_ok r hr
+    exact okF_sound c (allDown_spec _ _ _ this c h1 (by omega)) hz ho
+  | false =>
+    have hs := special_cold c hh
+    simp only [inRanges, special, List.any_cons, List.any_nil, Bool.or_false, Bool.or_eq_false_iff, Bool.and_eq_false_iff,
+      decide_eq_false_iff_not] at hs
+    have hw : inWin c = false := by rw [inWin_false_iff]; omega
+    rw [towfcCore_outside c (by omega) hw, iswfc_outside c hw, iswupper_cold c hh, towfcSingle_cold c hh]
+    simp
+
+theorem fold_announce_partial (c : Nat) (hz : inRanges announcesZeroButFolds c = false)
+    (ho : inRanges announcesOneButUnchanged c = false) (_hc : c ≤ 0x10FFFF) : iswfc c = 0 ↔ (towfcCore c).2 = [c] :=
+  fold_announce_all c hz ho
+
+/-! ### the exception sets are real: every member disagrees -/
+
+noncomputable def excZ (c : Nat) : Bool := (iswfc c == 0) && !((towfcCoreF c).2 == [c])
+noncomputable def excO (c : Nat) : Bool := (iswfc c == 1) && ((towfcCoreF c).2 == [c])
+
+theorem exc_ok :
+    (announcesZeroButFolds.all fun r => allDown excZ r.1 (r.2 + 1)) = true ∧
+    (announcesOneButUnchanged.all fun r => allDown excO r.1 (r.2 + 1)) = true := by decide +kernel
+
+theorem fold_announce_exceptions (c : Nat) :
+    (inRanges announcesZeroButFolds c = true → iswfc c = 0 ∧ (towfcCore c).2 ≠ [c]) ∧
+    (inRanges announcesOneButUnchanged c = true → iswfc c = 1 ∧ (towfcCore c).2 = [c]) := by
+  constructor
+  · intro h
+    obtain ⟨r, hr, h1, h2⟩ := (inRanges_iff _ _).mp h
+    have := allDown_spec _ _ _ (List.all_eq_true.mp exc_ok.1 r hr) c h1 (by omega)
+    rw [towfcCore_eq_F]
+    simpa [excZ] using this
+  · intro h
+    obtain ⟨r, hr, h1, h2⟩ := (inRanges_iff _ _).mp h
+    have := allDown_spec _ _ _ (List.all_eq_true.mp exc_ok.2 r hr) c h1 (by omega)
+    rw [towfcCore_eq_F]
+    simpa [excO] using this
+
+theorem fold_announce_witness_b5 : iswfc 0xb5 = 0 ∧ (towfcCore 0xb5).2 = [0x3bc] := by decide +kernel
+theorem fold_announce_witness_3d2 : iswfc 0x3d2 = 1 ∧ (towfcCore 0x3d2).2 = [0x3d2] := by decide +kernel
+
+example : (towfcCore 0xdf).2.length = max 1 (iswfc 0xdf) ∧ iswfc 0xdf = 2 := by decide +kernel
+example : (towfcCore 0xfb03).2.length = max 1 (iswfc 0xfb03) ∧ iswfc 0xfb03 = 3 := by decide +kernel
+example : (towfcCore 0x41).2.length = max 1 (iswfc 0x41) ∧ iswfc 0x41 = 1 := by decide +kernel
+
+#print axioms fold_cells
+#print axioms fold_announce_all
+#print axioms fold_announce_partial
+#print axioms fold_announce_exceptions
+#print axioms fold_announce_witness_b5
+#print axioms fold_announce_witness_3d2
+
+end SafeC.Fold
